@@ -1181,6 +1181,15 @@ fn compare_docs(c: &ProxyCase, env: &ProxyEnv, a: &[DocRes], b: &[DocRes], docs:
                         continue;
                     }
                 }
+                // a number measured off a caught message (`try f catch . | length`): the message
+                // text itself is only comparable for recorded-stable families, so its length is not
+                if (c.program.contains("length") || c.program.contains("utf8bytelength"))
+                    && ra.ys.len() == rb.ys.len()
+                    && ra.ys.iter().zip(rb.ys.iter()).all(|(x, y)| j_eq(x, y) || (matches!(x, J::Num(_)) && matches!(y, J::Num(_))))
+                {
+                    st.class("doc-discard:number-measured-off-a-caught-message");
+                    continue;
+                }
             }
             if c.program.contains("sqrt") && ra.ys.len() == rb.ys.len() && ra.ys.iter().zip(rb.ys.iter()).all(|(x, y)| near_eq(x, y)) {
                 fail!(SIG_SQRT, {"case": case()});
